@@ -300,6 +300,18 @@ def _model_loop(E, dt, steps, msteps, dtid, k, ctx, modtext, modname):
                 _fail(E, idx, ['GotWantException'], True, (ms['want_line'], ms['want_line']))
             E.notes.append('traceback want but nothing raised')
             break
+        if want == 'ell':
+            # decided by construction: 'prefix...' equals the output iff the ellipsis is a
+            # wildcard (ELLIPSIS on) and the output starts with that prefix
+            pre = W.ell_prefix(st)
+            if st.get('want_corrupt'):
+                E.silent.add('verdict')
+                break
+            if flags['ELLIPSIS'] and res['out'].startswith(pre):
+                window = []
+                continue
+            _fail(E, idx, ['GotWantException'], True, (ms['want_line'], ms['want_line']))
+            break
         full = ''.join(window + [res['out']])
         wt = want_text + '\n'
         vr = res['value_repr']
